@@ -96,6 +96,7 @@ func main() {
 		}
 	} else {
 		runGeneration(ev, res, *seed, *n, *tier, *known, nw, *dump)
+		runRename(res, *seed, *n, *known, *outDir)
 	}
 	res.Extra["wall_seconds"] = time.Since(start).Seconds()
 	res.Extra["node_workers"] = nw
